@@ -6,12 +6,12 @@ from .. import surface
 
 VO = ['Props/C02.vo', 'Tie/SqrtArk.vo']      # decode/encode call the table-driven square root: its tie to the source is part of the obligation
 FILES = ['Props/C02.v', 'Proofs/Codec.v', 'Proofs/BytesLemmas.v', 'Proofs/ByteLevel.v', 'Proofs/Final.v', 'Tie/Curve.v', 'Proofs/Instance.v', 'Proofs/SqrtTS.v', 'Proofs/SqrtSarkar.v']
-ENTRY32 = {'ark': ['el.dec', 'el.dec.decompress', 'el.dec.tf_enc', 'el.dec.tf_encref', 'el.dec.tf_arr', 'el.dec.tf_slice', 'el.dec.enc_tf_slice', 'el.deser', 'af.deser'],
+ENTRY32 = {'ark': ['el.dec', 'el.dec.decompress', 'el.dec.tf_enc', 'el.dec.tf_encref', 'el.dec.tf_arr', 'el.dec.tf_slice', 'el.dec.enc_tf_slice', 'el.deser', 'af.deser', 'el.deser.drip', 'af.deser.drip'],
            'min': ['el.dec', 'el.dec.tf_enc', 'el.dec.tf_encref', 'el.dec.tf_arr', 'el.dec.tf_slice', 'el.dec.enc_tf_slice']}
 # the serialisation modes the crate does not implement (Validate::No, Compress::No): they may stop (unimplemented!()), but must never hand out
 # an element for a string the specification rejects, nor a different element
 LENIENT = {'ark': ['el.deser_unchecked', 'af.deser_unchecked', 'el.deser_uncompressed', 'af.deser_uncompressed'], 'min': []}
-ANYLEN = {'ark': ['el.dec.tf_slice', 'el.dec.enc_tf_slice', 'el.deser', 'af.deser'], 'min': ['el.dec.tf_slice', 'el.dec.enc_tf_slice']}
+ANYLEN = {'ark': ['el.dec.tf_slice', 'el.dec.enc_tf_slice', 'el.deser', 'af.deser', 'el.deser.drip', 'af.deser.drip'], 'min': ['el.dec.tf_slice', 'el.dec.enc_tf_slice']}
 
 def strings(ctx, build, scale):
     pool = Pool(build, ctx.rng.fork('pool-' + build), n_rand=4)
@@ -81,7 +81,7 @@ def search(ctx, scale, hints):
             for n in range(0, 32):
                 for first in (8, 0):
                     h = bytes([first] + [0] * 31)[:n].hex() if n else '-'
-                    for op in ('el.deser', 'af.deser', 'enc.deser'): lines.append('%s %s' % (op, h))
+                    for op in ('el.deser', 'af.deser', 'enc.deser', 'el.deser.drip', 'af.deser.drip', 'enc.deser.drip'): lines.append('%s %s' % (op, h))
             out = harness.run_script(b, lines)
             for l, o in zip(lines, out):
                 if not o.startswith('ERR'):
